@@ -2,5 +2,5 @@
 EXTENDS CmsMsg, Json
 \* keep the base product small: the AKI / revoked variants only on the plain and the 128-byte size
 Slim == (msg.size \notin {"plain", "s128"}) => (msg.f.eeaki \in {"peer", "other"} /\ msg.f.crlaki \in {"peer", "other"} /\ msg.f.revoked \in {"none", "ee", "other_ee", "ee_other", "big_ee"} /\ msg.f.eeca \in {"no", "yes"})
-Emit == PrintT(<<"REPLAY", ToJson([op |-> "cmsmsg", size |-> msg.size, f |-> msg.f, accept |-> Accept(msg)])>>)
+Emit == PrintT(<<"REPLAY", ToJson([op |-> "cmsmsg", size |-> msg.size, alg |-> msg.alg, f |-> msg.f, accept |-> Accept(msg)])>>)
 =============================================================================
